@@ -51,23 +51,31 @@ func (f *vFlight) inflightBytes() int {
 }
 
 // C03.L3: a SACK is applied all-or-nothing. k chunks in flight, cumulative ack, a_rwnd
-// and one optional gap block fully symbolic.
+// and up to two gap blocks fully symbolic.
 func vh_C03_L3_sack_all_or_nothing() {
 	k := 1 + vPick(3)
 	f := vInFlight(k, false)
 	a := f.a
 	sack := &chunkSelectiveAck{cumulativeTSNAck: nondetU32(), advertisedReceiverWindowCredit: nondetU32()}
-	hasGap := vPick(2) == 1
-	var gs, ge uint16
-	if hasGap {
+	ngap := vPick(3) // 0, 1 or 2 gap blocks
+	hasGap := ngap >= 1
+	var gs, ge, gs2, ge2 uint16
+	if ngap >= 1 {
 		gs, ge = nondetU16(), nondetU16()
 		sack.gapAckBlocks = []gapAckBlock{{gs, ge}}
+	}
+	if ngap == 2 {
+		gs2, ge2 = nondetU16(), nondetU16()
+		sack.gapAckBlocks = append(sack.gapAckBlocks, gapAckBlock{gs2, ge2})
 	}
 	ca := sack.cumulativeTSNAck - f.base // how many chunks the cumulative ack covers, if valid
 	vassume(ca != 1<<31)
 	valid := ca <= uint32(k)
-	if hasGap && valid {
+	if ngap >= 1 && valid {
 		valid = gs >= 1 && gs <= ge && ca+uint32(ge) <= uint32(k)
+	}
+	if ngap == 2 && valid {
+		valid = gs2 >= 1 && gs2 <= ge2 && ca+uint32(ge2) <= uint32(k)
 	}
 	old := ca > 1<<31 // serially behind the ack point: silently dropped
 	sizeBefore, bytesBefore, bufBefore := a.inflightQueue.size(), a.inflightQueue.getNumBytes(), f.s.BufferedAmount()
@@ -93,6 +101,9 @@ func vh_C03_L3_sack_all_or_nothing() {
 	for i, c := range f.chunks {
 		cum := uint32(i) < ca
 		gap := hasGap && uint32(i) >= ca+uint32(gs)-1 && uint32(i) <= ca+uint32(ge)-1
+		if ngap == 2 && uint32(i) >= ca+uint32(gs2)-1 && uint32(i) <= ca+uint32(ge2)-1 {
+			gap = true
+		}
 		if cum || gap {
 			released += f.sizes[i]
 		}
